@@ -322,7 +322,7 @@ def zero_mass_seen(cnt, e):
 
 def run_set(a):
     exe, seed, i, g, n, zig = a
-    label = f"{g['s']}({','.join(format(v, 'g') for v in g['p'])})"
+    label = f"{g['s']}({','.join(format(v, 'g') for v in g['p'])})" if len(g['p']) <= 12 else f"{g['s']}({','.join(format(v, 'g') for v in g['p'][:8])},...{len(g['p']) - 8}_more)"
     res = {"label": label, "viol": [], "worst_p": 1.0, "draws": 0, "stage2": 0, "tests": 0, "error": None}
     x, err = draw(exe, h64(seed, i, 1), n, g["s"], g["p"])
     if x is None:
